@@ -113,6 +113,13 @@ class Diverged(Exception):
     pass
 
 
+class Online(BaseException):
+    """Carries a violation found by the online monitor out of sdeint (BaseException: the loop must not swallow it)."""
+
+    def __init__(self, v):
+        self.v = v
+
+
 class Recorder:
     """Wraps / replaces the controller's error signal and records the controller's own step-size decisions."""
 
@@ -215,12 +222,26 @@ def run_case(case, keep_log=False):
             amax = span / dt_min + 2
             rc = math.log(1.4 * max(dt, span) / dt_min) / math.log(1 / 0.932) + 2
             bound = int(amax * (rc + 1)) + 10
-            budget = 200_000 + 4000 * bound
+            budget = 2_000_000 + 3000 * bound
+            T_ = float(ts_t[-1])
+
+            def online(k, ta, tb):
+                # invariants that are cheapest to judge while the run proceeds (and that bound a runaway loop):
+                # every third request opens a trial (a, b)
+                if k % 3 == 0:
+                    if k // 3 > bound:
+                        raise Online(Violation("too_many_trials", {"trials": k // 3, "bound": bound}, k // 3))
+                    if tb != T_ and (tb - ta) < dt_min * (1 - 1e-6) - 2 * _ulp(tb, tdt):
+                        raise Online(Violation("trial_shorter_than_dt_min", {"k": k // 3, "a": fx(ta), "b": fx(tb),
+                                                                             "dt_min": dt_min, "online": True}, k // 3))
+            rec.on_request = online
             with Recorder(conf, script) as R, seams.CallMonitor(budget) as mon:
                 try:
                     with torch.no_grad():
                         ys = torchsde.sdeint(sde, y0, ts_t, bm=rec, method=solver["method"], dt=dt, adaptive=True,
                                              rtol=rtol, atol=atol, dt_min=dt_min, **kw)
+                except Online as o:
+                    raise o.v
                 except SimBudgetExceeded as e:
                     raise Violation("no_termination", {"trials_so_far": len(R.errs), "bound": bound, "msg": str(e)}, "run")
                 except Exception as e:  # noqa
